@@ -390,6 +390,32 @@ fn project_for(log: &[String], init: u8, script: &[(u8, bool)]) -> Vec<String> {
     out
 }
 
+/// does the input contain `=` whitespace* `>` (the `before_attribute_value_state` `>` arm)?
+fn has_attr_eq_gt(input: &[u8]) -> bool {
+    let mut i = 0;
+    while i < input.len() {
+        if input[i] == b'=' {
+            let mut j = i + 1;
+            while j < input.len() && matches!(input[j], b' ' | b'\n' | b'\r' | b'\t' | b'\x0C') {
+                j += 1;
+            }
+            if j < input.len() && input[j] == b'>' {
+                return true;
+            }
+        }
+        i += 1;
+    }
+    false
+}
+
+/// does the input end inside a tag (after the last `<` there is no `>`)?
+fn in_unfinished_tag(input: &[u8]) -> bool {
+    match input.iter().rposition(|&b| b == b'<') {
+        Some(p) => !input[p..].contains(&b'>'),
+        None => false,
+    }
+}
+
 /// C06 oracle: schedule S against S ∪ O for observer sets O (extra flags at every tag event).
 fn oracle_c06(input: &[u8], cuts: &[usize], strict: bool, init: u8, script: &[(u8, bool)], r: &RunRes) -> Option<String> {
     let all_ok = r.results.iter().all(|x| *x == "ok");
@@ -408,7 +434,9 @@ fn oracle_c06(input: &[u8], cuts: &[usize], strict: bool, init: u8, script: &[(u
                 && r.log[..proj.len()] == proj[..]
                 && (r.log[proj.len()].starts_with("hs:") || r.log[proj.len()].starts_with("he:")));
         if r.results.last() != ro.results.last() {
-            let unfinished = r.log.len() == proj.len() + 1 && r.log[..proj.len()] == proj[..];
+            // the tag scanner consults the tree-builder simulator when the tag NAME is complete, the lexer
+            // when the TAG is complete: an unterminated tag at the end of the input is seen by one only
+            let unfinished = same && in_unfinished_tag(input);
             return Some(format!(
                 "C06:{} with observer flags {o}: result {:?} without, {:?} with",
                 if unfinished { "result-differs-unfinished-tag" } else { "events-differ result" },
@@ -419,7 +447,8 @@ fn oracle_c06(input: &[u8], cuts: &[usize], strict: bool, init: u8, script: &[(u
         if !same {
             let i = proj.iter().zip(r.log.iter()).position(|(a, b)| a != b).unwrap_or(proj.len().min(r.log.len()));
             return Some(format!(
-                "C06:events-differ with observer flags {o}: first difference at event {i} without={:?} with={:?}",
+                "C06:events-differ shape={} with observer flags {o}: first difference at event {i} without={:?} with={:?}",
+                if has_attr_eq_gt(input) { "attr-eq-gt" } else { "other" },
                 r.log.get(i),
                 proj.get(i)
             ));
